@@ -196,8 +196,11 @@ PROPS = {
         module="Prom.Props.C07",
         areas=[dict(area="reg", quick=1200, thorough=50000,
                     classes=["gather-mismatch", "gather-order-dependent", "harness-panic"],
-                    mask=[(r"^err:\w+$", "err")])],
-        rule=REG_RULE + "; every gather is repeated on two fresh registries with the collectors registered in other orders",
+                    mask=[(r"^err:\w+$", "err")]),
+               # registrations racing each other (and gathers) on one Registry: what gather returns must be explained by the registrations
+               # executed one at a time (a collector admitted by two interleaved half-registrations is missing from, or doubled in, a gather)
+               dict(area="creg", quick=500, thorough=20000, classes=["registry-not-linearizable", "admission-wrong", "stuck", "harness-panic"])],
+        rule=REG_RULE + "; every gather is repeated on two fresh registries with the collectors registered in other orders; plus the concurrent registry histories of C06 (`creg`)",
         trusted=["HashMap iteration order = arbitrary list order (theorems quantify over it where stated); BTreeMap = name-sorted association list",
                  "sort_by is a stable sort (modelled as stable insertion sort)"],
     ),
